@@ -201,7 +201,9 @@ func (env *specEnv) eval(x ast.Expr) SVal {
 		if !ok {
 			specErr("deref of non-pointer")
 		}
-		return SVal{V: c.Load(env.heap, toPtr(v.V), 0, pt.Elem()), T: pt.Elem()}
+		lv := c.Load(env.heap, toPtr(v.V), 0, pt.Elem())
+		c.wfAssume(lv, &env.e.pendingWF)
+		return SVal{V: lv, T: pt.Elem()}
 	case *ast.BinaryExpr:
 		return env.binary(t)
 	case *ast.SelectorExpr:
@@ -348,6 +350,7 @@ func (env *specEnv) selector(t *ast.SelectorExpr) SVal {
 		for i := 0; i < st.NumFields(); i++ {
 			if st.Field(i).Name() == t.Sel.Name {
 				v := c.Load(env.heap, toPtr(base.V), structOffsets(st)[i], st.Field(i).Type())
+				c.wfAssume(v, &env.e.pendingWF) // standing size assumption for values read by specifications
 				return SVal{V: v, T: st.Field(i).Type()}
 			}
 		}
@@ -699,10 +702,17 @@ func (env *specEnv) call(t *ast.CallExpr) SVal {
 		return SVal{V: Scalar{T: c.Or(c.Ne(ar, br), c.Ule(ahi, blo), c.Ule(bhi, alo))}, T: boolT}
 	case "sameregion":
 		a, b := env.eval(t.Args[0]), env.eval(t.Args[1])
-		return SVal{V: Scalar{T: c.Eq(regionOf(a.V), regionOf(b.V))}, T: boolT}
+		// same allocation (nil shares an allocation with nothing)
+		return SVal{V: Scalar{T: c.And(c.Eq(regionOf(a.V), regionOf(b.V)), c.Ne(regionOf(a.V), c.Const(RgnW, 0)))}, T: boolT}
 	case "offset":
 		a := env.eval(t.Args[0])
 		return SVal{V: Scalar{T: dataPtr(a.V).O}, T: intT}
+	case "byteat":
+		// byte at an unsafe pointer plus offset
+		pv := env.eval(t.Args[0])
+		i := env.asInt64(env.toType(env.eval(t.Args[1]), types.Typ[types.Int]))
+		p := toPtr(pv.V)
+		return SVal{V: Scalar{T: c.loadCell(env.heap, K8, Ptr{p.R, c.Add(p.O, i)}, 0)}, T: types.Typ[types.Uint8]}
 	case "bits":
 		v := env.eval(t.Args[0])
 		w, _, ok := intInfo(v.T)
